@@ -16,7 +16,7 @@ from apt_mirror.filter import PackageFilter
 from apt_mirror.repository import PackagesParser, SourcesParser
 
 EXPECTED = ["C09_prefix_exact", "C09_continuation_inert", "C09_filter_spec", "C09_ignore_exact", "C09_blank_flushes", "C09_blank_skips",
-            "C09_final_flush"]
+            "C09_final_flush", "C09_packages_refines", "C09_packages_empty", "C09_package_is_field"]
 LEVEL = "proof"
 RULE = ("index = 0-12 stanzas from the Debian control-file grammar: random field order, multi-line fields (Description, "
         "Depends continuation), optional fields, extra fields whose names are prefixes/extensions of the interesting ones "
